@@ -39,6 +39,15 @@ TCall ==
   /\ tin' = tin \o Ev.src /\ tout' = tout \o Ev.dst
   /\ UNCHANGED <<dir, key, iv, msg, pos, calls, prev>>
 
+\* a call the stream refused by panicking (its output slice was shorter than its input) and that the caller recovered
+\* from: it is no part of the message - the register is what it was (the calls that follow are judged against it)
+TRefused ==
+  /\ IsEvent("refused") /\ Ev.dlen < Ev.n
+  /\ UNCHANGED <<vars, tin, tout, prev>>
+
+\* a session the harness gave up (a too-short output was not refused: what that means is not specified)
+TAbandon == IsEvent("abandon") /\ prev' = NoPrev /\ UNCHANGED <<vars, tin, tout>>
+
 TEnd ==
   /\ IsEvent("end")
   /\ prev.dir # "none" => (tin = prev.tout /\ tout = prev.tin)        \* Dec(Enc(m)) = m, Enc(Dec(c)) = c
@@ -47,7 +56,7 @@ TEnd ==
 
 TraceInit == /\ l = 1 /\ dir = "enc" /\ key = 0 /\ iv = <<>> /\ msg = <<>> /\ reg = <<>> /\ pos = 0 /\ calls = <<>>
              /\ tin = <<>> /\ tout = <<>> /\ prev = NoPrev
-TraceNext == TReset \/ TCall \/ TEnd
+TraceNext == TReset \/ TCall \/ TRefused \/ TAbandon \/ TEnd
 TraceSpec == TraceInit /\ [][TraceNext]_tvars
 
 Accepted == LET d == TLCGet("stats").diameter IN
